@@ -156,6 +156,7 @@ bool World::feed_next_batch_error() {
 }
 
 void World::turn_end() {
+	cur_read_client = -1;
 	feed_batch_errors_before(-1);
 	flush_pending();
 	batch.clear();
